@@ -59,14 +59,19 @@ def rule_cas_shape(fx, col):
     fn = 'Hybrid compare_and_swap'
     cas = [s for s in cx.summ.sites_by_body.get(b.key, ()) if s.cls == 'cell' and s.op.startswith('compare_exchange')]
     loops = b.loops()
-    if not col.anchor('CAS-SHAPE', fn + '|one exchange in one loop', len(cas) == 1 and len(loops) == 1, '%d exchanges, %d loops' % (len(cas), len(loops))):
+    if not col.anchor('CAS-SHAPE', fn + '|one exchange', len(cas) == 1 and len(loops) <= 1, '%d exchanges, %d loops' % (len(cas), len(loops))):
         return
     c = cas[0]
-    h, blocks, tails = loops[0]
+    if loops and c.bb in loops[0][1]:
+        h, blocks, tails = loops[0]
+    else:
+        h, blocks, tails = 0, set(x for x in range(b.n) if not b.is_cleanup(x)), []
+        col.add('CAS-SHAPE', fn + '|strong exchange when not retried', c.op == 'compare_exchange',
+                'without a retry loop the exchange must be the strong compare_exchange (the weak form may fail spuriously)', c.loc)
     loads = [(bb, t) for bb, t in b.calls(include_cleanup=False) if U.callee_name(t) == 'load' and (t['callee'].get('trait') or '').startswith(SEALED)]
-    in_loop = [(bb, t) for bb, t in loads if bb in blocks]
-    col.add('CAS-SHAPE', fn + '|fresh load per iteration', len(loads) == 1 and len(in_loop) == 1 and b.dominates(in_loop[0][0], c.bb),
-            'the stored value is loaded inside the loop (%d load(s), %d in the loop) before each exchange attempt' % (len(loads), len(in_loop)))
+    in_loop = [(bb, t) for bb, t in loads if bb in blocks and b.dominates(bb, c.bb)]
+    col.add('CAS-SHAPE', fn + '|fresh load per attempt', len(in_loop) == 1,
+            'the stored value is loaded before each exchange attempt (%d load(s) in the function, %d dominating the exchange inside its retry scope)' % (len(loads), len(in_loop)))
     if not in_loop:
         return
     lbb, lt = in_loop[0]
@@ -125,15 +130,15 @@ def rule_cas_shape(fx, col):
     early = []
     for bb, t in b.drops(include_cleanup=False):
         if t['place']['local'] == 3 and not t['place']['proj']:
-            if not any(b.term(x)['k'] == 'return' and b.dominates(bb, x) for x in range(b.n)) or bb in blocks or b.dominates(bb, h):
+            if b.dominates(bb, c.bb) or (tails and bb in blocks):
                 early.append(b.loc(bb))
     for bb, t in b.calls(include_cleanup=False):
         if U.callee_name(t) == 'drop' and t['args'] and t['args'][0]['k'] == 'move' and t['args'][0]['place']['local'] == 3:
-            if b.dominates(bb, h) or bb in blocks:
+            if b.dominates(bb, c.bb) or (tails and bb in blocks):
                 early.append(b.loc(bb))
     moved = []
     for bb in range(b.n):
-        if b.dominates(bb, h) and bb != h and not b.is_cleanup(bb):
+        if b.dominates(bb, c.bb) and bb != c.bb and not b.is_cleanup(bb):
             for i, st in enumerate(b.stmts(bb)):
                 if st['k'] == 'assign' and st['rv']['k'] == 'use' and st['rv']['op']['k'] == 'move' and st['rv']['op']['place']['local'] == 3:
                     moved.append(b.loc(bb, i))
